@@ -30,7 +30,7 @@ func externMods(f *ssa.Function) (keys []string, allocs bool, known bool) {
 		return nil, false, true
 	case "(*strings.Builder).Grow", "(*strings.Builder).Len":
 		return nil, false, true
-	case "(*strings.Builder).WriteByte", "(*strings.Builder).WriteString", "(*strings.Builder).WriteRune":
+	case "(*strings.Builder).WriteByte", "(*strings.Builder).WriteString", "(*strings.Builder).WriteRune", "(*strings.Builder).Write":
 		return []string{"E:byte", "F:strings.Builder.buf#id", "F:strings.Builder.buf#off", "F:strings.Builder.buf#len", "F:strings.Builder.buf#cap"}, true, true
 	case "(*strings.Builder).String":
 		return []string{"S:byte"}, true, true
@@ -41,6 +41,8 @@ func externMods(f *ssa.Function) (keys []string, allocs bool, known bool) {
 		return []string{"S:byte"}, true, true
 	case "strconv.AppendInt":
 		return []string{"E:byte"}, true, true
+	case "(golang.org/x/net/html/atom.Atom).String", "golang.org/x/net/html/atom.Lookup":
+		return nil, false, true
 	}
 	return nil, false, false
 }
@@ -213,6 +215,9 @@ func (x *Exec) externCall(st *State, c *ssa.Call, f *ssa.Function, args []SV) SV
 		st.heap["E:byte"] = Store(h, p.Id, na)
 		return intSV(n, types.Typ[types.Int])
 	}
+	if sv, ok := x.externCall2(st, c, f, name, args); ok {
+		return sv
+	}
 	x.fail("call to external function %s (no assumed contract)", name)
 	return SV{}
 }
@@ -248,6 +253,11 @@ func (x *Exec) builderCall(st *State, c *ssa.Call, method string, args []SV) SV 
 		t := SV{K: KSeq, Arr: Store(App("zeroarr", SArrI), IntC(0), args[1].T), Off: IntC(0), Len: IntC(1), Cap: IntC(1)}
 		x.store(st, loc, x.appendCore(st, buf, t, byteT, "E:byte", bufTy))
 		return refSV(IntC(0), c.Type()) // error result: nil
+	case "Write":
+		t := args[1]
+		n := t.Len
+		x.store(st, loc, x.appendCore(st, buf, t, byteT, "E:byte", bufTy))
+		return SV{K: KTuple, Ty: c.Type(), Fields: []SV{intSV(n, types.Typ[types.Int]), refSV(IntC(0), types.Universe.Lookup("error").Type())}}
 	case "WriteString":
 		t := args[1]
 		n := t.Len
@@ -311,10 +321,15 @@ func sigString(t types.Type) string {
 }
 
 // pureCallResult: the deterministic result of calling a pure callback.
-func (x *Exec) pureCallResult(fid *Term, sig string, rt types.Type, args []SV) SV {
+func (x *Exec) pureCallResult(cur HeapView, fid *Term, sig string, rt types.Type, args []SV) SV {
 	var flat []*Term
 	flat = append(flat, fid)
 	for _, a := range args {
+		if a.K == KSeq && (a.Arr != nil || a.Ty == nil || elemKeyBase(elemTypeOf(a.Ty)) == "E:byte") {
+			// a byte sequence is passed by value as far as a pure callback is concerned: its contents
+			flat = append(flat, x.seqVal(cur, a))
+			continue
+		}
 		flat = append(flat, x.leafTerms(a)...)
 	}
 	var ts []*Term
@@ -365,12 +380,13 @@ func (x *Exec) dynamicCall(st *State, c *ssa.Call, fv SV, args []SV) SV {
 		if tt, ok := rt.(*types.Tuple); ok && tt.Len() == 0 {
 			return SV{K: KTuple}
 		}
-		res := x.pureCallResult(fid, sig, rt, args)
+		res := x.pureCallResult(st.heap, fid, sig, rt, args)
 		x.assumeTypeInv(st, res)
 		if ens := x.prog.contracts.CallbackEnsures[sig]; ens != nil {
 			env := &CEnv{x: x, vars: map[string]SV{"result": res}, cur: st.heap, qn: &x.qn}
 			st.assume(env.evalBool(ens))
 		}
+		x.callGhostUpdates(st, sig, fv, fid, args, res)
 		return res
 	}
 	// impure callback: arbitrary result; it does not write library-owned memory (standing assumption)
@@ -378,6 +394,34 @@ func (x *Exec) dynamicCall(st *State, c *ssa.Call, fv SV, args []SV) SV {
 		return SV{K: KTuple}
 	}
 	return x.freshOf(st, rt, "cb")
+}
+
+// callGhostUpdates: ghost updates attached to calls through a function value of this signature.
+func (x *Exec) callGhostUpdates(st *State, sig string, fv SV, fid *Term, args []SV, res SV) {
+	if x.fc == nil || len(st.frames) != 1 || len(x.fc.CallGhost[sig]) == 0 {
+		return
+	}
+	env := x.contractEnv(st, nil, st.entry)
+	x.bindLocals(env, st.top(), nil)
+	f := fv
+	f.T = fid
+	env.vars["$f"] = f
+	env.vars["$result"] = res
+	for i, a := range args {
+		env.vars[fmt.Sprintf("$%d", i)] = a
+	}
+	for _, g := range x.fc.CallGhost[sig] {
+		old, ok := st.ghost[g.Name]
+		if !ok {
+			x.fail("ghost update of undeclared ghost %s", g.Name)
+		}
+		nv := env.eval(g.Expr)
+		if nv.K != old.K {
+			x.fail("ghost update of %s changes its kind", g.Name)
+		}
+		st.ghost[g.Name] = nv
+		env.vars[g.Name] = nv
+	}
 }
 
 func (x *Exec) dynCallOrdinal(c *ssa.Call, sig string) int {
@@ -399,10 +443,6 @@ func (x *Exec) dynCallOrdinal(c *ssa.Call, sig string) int {
 	return n
 }
 
-func (x *Exec) mapUpdate(st *State, i *ssa.MapUpdate)    { x.fail("map update") }
-func (x *Exec) mapLookup(st *State, i *ssa.Lookup) SV    { x.fail("map lookup"); return SV{} }
-func (x *Exec) mapDelete(st *State, c *ssa.Call)         { x.fail("map delete") }
-func (x *Exec) initMap(st *State, r *Term, t types.Type) {}
 
 func (x *Exec) makeInterface(st *State, v SV, from, to types.Type) SV {
 	var ts []*Term
